@@ -268,6 +268,7 @@ def run(tier, seed):
     nat = native_finish(proc)
     if nat.get('timeout') or nat.get('error'):
         chk.undecide('BOUNDED:c04/native round trips did not finish: %s' % (nat.get('error') or 'timeout'))
+    chk.native_witness = nat.get('bad')
     for v in chk.violations:
         if not v['confirmed'] and nat.get('bad'):
             p = json.load(open(v['replay']))
